@@ -292,6 +292,11 @@ struct Ctx
 			else if (a == "--thorough") thorough = true ;
 			else if (a.compare (0, 2, "--") == 0) opt [a.substr (2)] = val () ;
 		}
+		// the harness changes into its scratch directory (see scratch_dir): make every path given on the command line absolute first
+		{	char cwd [4096] ; std::string base = getcwd (cwd, sizeof (cwd)) ? cwd : "." ;
+			auto abs = [&] (std::string &p) { if (!p.empty () && p [0] != '/') p = base + "/" + p ; } ;
+			abs (replay) ; abs (outdir) ; abs (kf_file) ; for (auto &kv : opt) if (kv.first == "emit-corpus" || kv.first == "stats") abs (kv.second) ;
+		}
 		mkdir (outdir.c_str (), 0777) ;
 		unlink (path ("failing.case").c_str ()) ;
 		if (!kf_file.empty ()) kf.load (kf_file) ;
@@ -322,6 +327,7 @@ inline bool execute (Ctx &ctx, const Case &c, const RunFn &run, const SigFn &sig
 		if (auto *k = ctx.kf.excluded (s)) { k->excluded ++ ; ctx.ev.excluded_known ++ ; return false ; }
 	}
 	c.save (ctx.path ("current.case")) ;	// survives a sanitizer abort
+	unlink ("._") ;	// a resource fork an earlier case may have left in the (scratch) working directory must not be found by this one
 	Result r = run (c) ;
 	if (counting) ctx.ev.add (c, r) ;
 	if (!r.ok)
